@@ -184,6 +184,7 @@ inductive Stmt where
 
 inductive PErr where
   | unexpected (pos : Nat)        -- `errorf`: position of the last item received from the lexer
+  | check (pos : Nat)             -- a statement check failed: position of the statement's keyword
   | fuel
   deriving Repr, DecidableEq
 
@@ -266,8 +267,8 @@ def argument (input : Bytes) (s : PS) : P (Bytes × PS) :=
   else (nextNS s).2.fail
 
 mutual
-/-- `stmt` -/
-def pStmt (input : Bytes) : Nat → PS → P (Stmt × PS)
+/-- `stmt`; `chk` is the statement check (`node.check`), applied when the statement is complete -/
+def pStmt (chk : Stmt → Bool) (input : Bytes) : Nat → PS → P (Stmt × PS)
   | 0, s => .error (.fuel, s.taken)
   | f + 1, s => do
     let (id, s1) ← expectT .string s
@@ -275,21 +276,24 @@ def pStmt (input : Bytes) : Nat → PS → P (Stmt × PS)
     let (arg, s2) ← if nx.typ = .lbrace then pure ([], s1) else argument input s1
     -- stmtBody
     let (delim, s3) := nextNS s2
-    if delim.typ = .semi then pure (.mk id.val arg id.pos [], s3)
+    if delim.typ = .semi then
+      let st := Stmt.mk id.val arg id.pos []
+      if chk st then pure (st, s3) else .error (.check id.pos, s3.taken)
     else if delim.typ = .lbrace then do
-      let (subs, s4) ← pStar input f s3
+      let (subs, s4) ← pStar chk input f s3
       let (_, s5) ← expectT .rbrace s4
-      pure (.mk id.val arg id.pos subs, s5)
+      let st := Stmt.mk id.val arg id.pos subs
+      if chk st then pure (st, s5) else .error (.check id.pos, s5.taken)
     else s3.fail
 /-- `stmtStar` -/
-def pStar (input : Bytes) : Nat → PS → P (List Stmt × PS)
+def pStar (chk : Stmt → Bool) (input : Bytes) : Nat → PS → P (List Stmt × PS)
   | 0, s => .error (.fuel, s.taken)
   | f + 1, s =>
     let (nx, _) := peekNS (s.items.length + 1) s
     if nx.typ = .rbrace then pure ([], s)
     else do
-      let (st, s1) ← pStmt input f s
-      let (rest, s2) ← pStar input f s1
+      let (st, s1) ← pStmt chk input f s
+      let (rest, s2) ← pStar chk input f s1
       pure (st :: rest, s2)
 end
 
@@ -307,18 +311,19 @@ def lineCol (input : Bytes) (pos : Nat) : Nat × Nat :=
   (line, col)
 
 /-- `parse.Parse` on statements that carry no grammar checks (prefixed extension keywords) -/
-def parse (fixedEOF : Bool) (input : Bytes) : Parsed :=
+def parse (chk : Stmt → Bool) (fixedEOF : Bool) (input : Bytes) : Parsed :=
   match lex fixedEOF input with
   | none => .diverge
   | some items =>
     let total := items.length
     let r : P (Stmt × PS) := do
-      let (st, s1) ← pStmt input (items.length + 2) { items := items }
+      let (st, s1) ← pStmt chk input (items.length + 2) { items := items }
       let (_, s2) ← expectT .eof s1
       pure (st, s2)
     match r with
     | .ok (st, s) => .ok st s.taken total
     | .error (.fuel, _) => .fuel
     | .error (.unexpected pos, taken) => let (l, c) := lineCol input pos; .err l c taken total
+    | .error (.check pos, taken) => let (l, c) := lineCol input pos; .err l c taken total
 
 end YV.Y
